@@ -79,7 +79,39 @@ def token_dump(tok):
             "res": int(tok.res_id), "ext": tok.generate_string(True), "noext": tok.generate_string(False), "frag": tok.generate_smiles_fragment()}
 
 
+def frozen_law(d):
+    """(loc, scale, ...) of a frozen SciPy distribution as held by the object: what draw_mw / prob_mw really use"""
+    fz = getattr(d, "_distribution", None)
+    kw = getattr(fz, "kwds", None)
+    ar = getattr(fz, "args", None)
+    if kw is None and ar is None:
+        return None
+    try:
+        return [float(x) for x in (ar or ())] + [float(kw[k]) for k in sorted(kw or {})]
+    except (TypeError, ValueError):
+        return None
+
+
+def law_from_params(fam, params):
+    """the law the printed parameters denote, in the layout of `frozen_law`"""
+    if fam == "uniform":
+        return [float(params[0]), float(params[1]) - float(params[0])]
+    if fam == "gauss":
+        return [float(params[0]), float(params[1])]
+    return None
+
+
 def dist_dump(d):
+    out = _dist_dump(d)
+    if out is not None:
+        law = frozen_law(d)
+        want = law_from_params(out["fam"], out["params"])
+        # the law the object samples from is the law its printed parameters denote (uniform: bounds after truncation)
+        out["law_ok"] = bool(law is None or want is None or (len(law) == len(want) and all(abs(a - b) <= 1e-12 * max(1.0, abs(b)) for a, b in zip(law, want))))
+    return out
+
+
+def _dist_dump(d):
     if d is None:
         return None
     name = type(d).__name__
@@ -125,6 +157,10 @@ def diff(impl, model, path=""):
         if not isinstance(model, dict):
             return f"{path}: {impl!r} vs {model!r}"
         for k in impl:
+            if k == "law_ok":
+                if impl[k] is not True:
+                    return f"{path}.law_ok: the distribution object samples from another law than its parameters {impl.get('params')} denote"
+                continue
             if k not in model:
                 return f"{path}.{k}: missing in model"
             if k in ("ext", "noext") and isinstance(model[k], str) and "?" in model[k]:
